@@ -93,18 +93,17 @@ def check_fast_guard(project: Project, rep):
     """the isotropic fast path is guarded by sigma[0][0]==sigma[1][1] and sigma[0][1]==0"""
     fi = project.function(TR)
     f = fi.node
+    import re
     conds = []
     for n in ast.walk(f):
-        if isinstance(n, ast.If):
-            t = ast.unparse(n.test)
-            if "sigma" in t and "==" in t:
-                conds.append(n)
+        if isinstance(n, ast.If) and "==" in ast.unparse(n.test) and re.search(r"\w+\[\d\]\[\d\]", ast.unparse(n.test)):
+            conds.append(n)
     ok = False
     for n in conds:
-        parts = [ast.unparse(v) for v in (n.test.values if isinstance(n.test, ast.BoolOp) and isinstance(n.test.op, ast.And)
-                                          else [n.test])]
-        eq = any(("sigma[0][0]" in p_ and "sigma[1][1]" in p_) for p_ in parts)
-        zero = any((("sigma[0][1]" in p_ or "sigma[1][0]" in p_) and ("0.0" in p_ or "== 0" in p_)) for p_ in parts)
+        parts = [ast.unparse(v).replace(" ", "") for v in (n.test.values if isinstance(n.test, ast.BoolOp) and isinstance(n.test.op, ast.And)
+                                                           else [n.test])]
+        eq = any(re.fullmatch(r"(\w+)\[0\]\[0\]==\1\[1\]\[1\]|(\w+)\[1\]\[1\]==\2\[0\]\[0\]", p_) for p_ in parts)
+        zero = any(re.fullmatch(r"\w+\[(0\]\[1|1\]\[0)\]==0(\.0)?|0(\.0)?==\w+\[(0\]\[1|1\]\[0)\]", p_) for p_ in parts)
         if eq and zero:
             ok = True
             rep.discharged("PI-FAST", fi, n, "fast path requires equal variances and zero covariance")
